@@ -2,7 +2,10 @@
    returned.  [judge] compares the observation with the model (agree) and evaluates the property
    predicate C18_ok on the observation with oracles that do not go through the model's
    algorithms (arithmetic on denoted integers, pointwise sampling of step functions). *)
-From SC Require Import Base.Prelude Timeline.Timestamp Timeline.Segment Timeline.Mode.
+From SC Require Import Base.Prelude Timeline.Timestamp Timeline.Segment Timeline.Mode Timeline.Own Timeline.Wrap.
+
+(* a mode result seen from outside: which argument it IS (if any), start time, Segments *)
+Definition mres : Type := option nat * option ts * (sprov * list (prov * seg)).
 
 Inductive c18case :=
 | KCompare (a b : ts) (obs : Z)
@@ -20,7 +23,20 @@ Inductive c18case :=
 | KModeActiveAt (t : Z) (m : mode) (obs : Z * Z)
 | KModeCut (t : Z) (m : mode) (obs : option mode * option mode * bool)
 | KModeShift (d : Z) (m : mode) (obs : mode)
-| KModeSum (ms : list mode) (obs : option mode).
+| KModeSum (ms : list mode) (obs : option mode)
+(* second wave: the rest of the three packages, and ownership *)
+| KCutCompare (a b : cut) (obs : Z)
+| KCutPeriod (p : period) (obs : cut * cut)
+| KPeriodCtor (k : Z) (a b : option ts) (obs : option period)
+| KMaxMagnitude (l : list seg) (obs : Z)
+| KSumMagnitude (l : list seg) (obs : Z)
+| KModeMaxAfter (t : Z) (m : mode) (obs : Z)
+| KMinAt (t : Z) (ms : list mode) (obs : option Z * Z)
+| KOwnShift (pre post : nat) (d : Z) (l : list seg) (mut : bool) (obs : sprov * list (prov * seg))
+| KOwnSum (args : list (nat * nat * list seg)) (mut : bool) (obs : sprov * list (prov * seg))
+| KOwnModeCut (arg : nat * nat * option ts * list seg) (t : Z) (mut : bool) (obs : option mres * option mres * bool)
+| KOwnModeShift (arg : nat * nat * option ts * list seg) (d : Z) (mut : bool) (obs : option mres)
+| KOwnModeSum (args : list (nat * nat * option ts * list seg)) (mut : bool) (obs : option mres).
 
 Definition zz_eqb (a b : Z * Z) := (fst a =? fst b) && (snd a =? snd b).
 Definition zb_eqb (a b : Z * bool) := (fst a =? fst b) && Bool.eqb (snd a) (snd b).
@@ -28,6 +44,98 @@ Definition segs_eqb := list_eqb seg_eqb.
 Definition cut3_eqb {A} (e : A -> A -> bool) (a b : option A * option A * bool) :=
   let '(a1, a2, a3) := a in let '(b1, b2, b3) := b in
   option_eqb e a1 b1 && option_eqb e a2 b2 && Bool.eqb a3 b3.
+
+
+(* ---- second wave: reference meanings ---- *)
+
+(* position of a cut on the extended time line, ordered lexicographically *)
+Definition cut_rank (c : cut) : Z * Z * Z :=
+  match c with
+  | BelowAll => (-1, 0, 0)
+  | Below t => (0, ts_val t, 0)
+  | Above t => (0, ts_val t, 1)
+  | AboveAll => (1, 0, 0)
+  end.
+Definition sgn_cmp (a b : Z) : Z := match a ?= b with Lt => -1 | Eq => 0 | Gt => 1 end.
+Definition lex3 (x y : Z * Z * Z) : Z :=
+  let '(a1, a2, a3) := x in let '(b1, b2, b3) := y in
+  if negb (a1 =? b1) then sgn_cmp a1 b1 else if negb (a2 =? b2) then sgn_cmp a2 b2 else sgn_cmp a3 b3.
+Definition cut_ref_compare (a b : cut) : Z := lex3 (cut_rank a) (cut_rank b).
+Definition cut_valid (c : cut) : bool := match c with Below t | Above t => ts_valid t | _ => true end.
+Definition cut_eqb (a b : cut) : bool :=
+  match a, b with
+  | BelowAll, BelowAll | AboveAll, AboveAll => true
+  | Below x, Below y | Above x, Above y => ts_eqb x y
+  | _, _ => false
+  end.
+Definition period_eqb (p q : period) : bool :=
+  option_eqb ts_eqb (pstart p) (pstart q) && option_eqb ts_eqb (pend p) (pend q).
+
+(* period.go AllTime / PeriodBetween / PeriodBefore / PeriodOnOrAfter (k = 0..3) *)
+Definition period_ctor (k : Z) (a b : option ts) : option period :=
+  if k =? 0 then Some (mkPeriod None None)
+  else if k =? 1 then Some (mkPeriod a b)
+  else if k =? 2 then Some (mkPeriod None a)
+  else Some (mkPeriod a None).
+Definition optZ_eqb := option_eqb Z.eqb.
+
+(* Max's contract (the KMax predicate) *)
+Definition max_ok (l : list seg) (obs : Z) : bool :=
+  if obs <? zlen l then
+    (0 <=? obs) && counts (nth (Z.to_nat obs) l (mkSeg 0 None))
+    && forallb (fun s => negb (counts s) || (mag s <=? nth_mag obs l)) l
+    && forallb (fun s => negb (counts s) || (mag s <? nth_mag obs l)) (firstn (Z.to_nat obs) l)
+  else forallb (fun s => negb (counts s)) l.
+
+(* index of the segment active at d >= 0, by the recursion of the step function (not ActiveAt's scan) *)
+Fixpoint idx_ref (d : Z) (l : list seg) : Z :=
+  match l with
+  | [] => 0
+  | s :: r => match len s with None => 0 | Some n => if d <? n then 0 else 1 + idx_ref (d - n) r end
+  end.
+Definition max_after_ok (d : Z) (l : list seg) (obs : Z) : bool :=
+  let i0 := if d <? 0 then 0 else idx_ref d l in
+  max_ok (skipn (Z.to_nat i0) l) (obs - i0).
+
+(* the largest magnitude among the segments that count, 0 if none *)
+Definition max_mag_ref (l : list seg) : Z :=
+  match map mag (filter counts l) with [] => 0 | x :: r => fold_right Z.max x r end.
+
+(* MinAt over a Go map: the iteration order is unspecified, so the contract is a relation:
+   the reported magnitude is the least one, and the reported mode has it *)
+Definition min_at_ok (t : Z) (ms : list mode) (obs : option Z * Z) : bool :=
+  let mags := map (fun m => fst (mode_magnitude_at_w t m)) ms in
+  match fst obs with
+  | None => match ms with [] => snd obs =? 0 | _ => false end
+  | Some i => (0 <=? i) && (i <? zlen ms) && (nth (Z.to_nat i) mags 0 =? snd obs)
+              && forallb (fun x => snd obs <=? x) mags
+  end.
+
+(* ---- ownership cases: the heap the harness built, and how a result looks from outside ---- *)
+
+Fixpoint args_heap_from (h : heap) (args : list (nat * nat * list seg)) : heap * list slice :=
+  match args with
+  | [] => (h, [])
+  | (pre, post, l) :: r =>
+      let cs := repeat sentinel pre ++ l ++ repeat sentinel post in
+      let s := mkSlice (List.length (arrays h)) pre (List.length l) (List.length l + post) in
+      let h1 := mkHeap (cells h ++ cs) (arrays h ++ [seq (List.length (cells h)) (List.length cs)]) (mcells h) in
+      let '(h2, ss) := args_heap_from h1 r in (h2, s :: ss)
+  end.
+Definition args_heap := args_heap_from (mkHeap [] [] []).
+Definition margs_heap (args : list (nat * nat * option ts * list seg)) : heap * list nat :=
+  let '(h, ss) := args_heap (map (fun a => let '(pre, post, _, l) := a in (pre, post, l)) args) in
+  (mkHeap (cells h) (arrays h) (combine (map (fun a => snd (fst a)) args) ss), seq 0 (List.length args)).
+
+Definition view_eqb (a b : sprov * list (prov * seg)) : bool :=
+  sprov_eqb (fst a) (fst b) &&
+  list_eqb (fun x y => prov_eqb (fst x) (fst y) && seg_eqb (snd x) (snd y)) (snd a) (snd b).
+Definition view_mode (h0 h : heap) (m : nat) : mres :=
+  (if (m <? List.length (mcells h0))%nat then Some m else None, fst (mcell h m), view_slice h0 h (snd (mcell h m))).
+Definition mres_eqb (a b : mres) : bool :=
+  let '(a1, a2, a3) := a in let '(b1, b2, b3) := b in
+  option_eqb Nat.eqb a1 b1 && option_eqb ts_eqb a2 b2 && view_eqb a3 b3.
+Definition no_growth (n : nat) : nat := 0%nat.
 
 (* ---- oracles ---- *)
 Definition periods_ok (p q : option period) : bool :=
@@ -65,14 +173,8 @@ Definition C18_ok (c : c18case) : bool :=
       let fin := forallb (fun s => match len s with Some _ => true | None => false end) l in
       if fin then zb_eqb obs (prefix_len (zlen l) l, false)
       else snd obs
-  | KMax l obs =>
-      (* no counted segment has a larger magnitude than the reported one, none earlier has an equal one *)
-      if obs <? zlen l then
-        (0 <=? obs) && counts (nth (Z.to_nat obs) l (mkSeg 0 None))
-        && forallb (fun s => negb (counts s) || (mag s <=? nth_mag obs l)) l
-        && forallb (fun s => negb (counts s) || (mag s <? nth_mag obs l)) (firstn (Z.to_nat obs) l)
-      else forallb (fun s => negb (counts s)) l
-  | KMaxAfter d l obs => true   (* defined through ActiveAt and Max; compared with the model only *)
+  | KMax l obs => max_ok l obs
+  | KMaxAfter d l obs => max_after_ok d l obs
   | KCutSeg d s obs =>
       let '(b, a, outside) := obs in
       if (0 <? d) && (match len s with Some n => d <? n | None => true end) then
@@ -132,18 +234,54 @@ Definition C18_ok (c : c18case) : bool :=
           end
       | _, _ => false
       end
+  | KCutCompare a b obs => obs =? cut_ref_compare a b
+  | KCutPeriod p obs =>
+      let '(lo, hi) := obs in
+      let rk := fun (o : option Z) (inf : Z) => match o with None => (inf, 0, 0) | Some x => (0, x, 0) end in
+      (lex3 (cut_rank lo) (rk (period_lo p) (-1)) =? 0) && (lex3 (cut_rank hi) (rk (period_hi p) 1) =? 0)
+  | KPeriodCtor k a b obs =>
+      match obs with
+      | None => false
+      | Some p =>
+          let v := option_map ts_val in
+          if k =? 0 then optZ_eqb (period_lo p) None && optZ_eqb (period_hi p) None
+          else if k =? 1 then optZ_eqb (period_lo p) (v a) && optZ_eqb (period_hi p) (v b)
+          else if k =? 2 then optZ_eqb (period_lo p) None && optZ_eqb (period_hi p) (v a)
+          else optZ_eqb (period_lo p) (v a) && optZ_eqb (period_hi p) None
+      end
+  | KMaxMagnitude l obs => obs =? max_mag_ref l
+  | KSumMagnitude l obs => obs =? sumZ (map mag l)
+  | KModeMaxAfter t m obs => max_after_ok (t - t_or_st t m) (msegs m) obs
+  | KMinAt t ms obs => min_at_ok t ms obs
+  | KOwnShift _ _ _ _ mut _ | KOwnSum _ mut _ | KOwnModeCut _ _ mut _ | KOwnModeShift _ _ mut _
+  | KOwnModeSum _ mut _ => negb mut
   end.
 
+(* magnitude of the infinite last segment of a list, 0 if the list is finite: what Sum's open tail adds up from *)
+Fixpoint tail_level (l : list seg) : Z :=
+  match l with
+  | [] => 0
+  | s :: r => match len s with None => mag s | Some _ => tail_level r end
+  end.
 (* the guard under which the theorems of Props/C18.v are stated *)
 Definition C18_guard (c : c18case) : bool :=
   match c with
   | KCompare a b _ => ts_valid a && ts_valid b
   | KIntersect p q _ | KConnected p q _ => periods_ok p q
-  | KActiveAt _ l _ | KMagAt _ l _ | KDuration l _ | KMax l _ | KMaxAfter _ l _ | KShift _ l _ => segs_wf l
+  | KActiveAt d l _ | KMagAt d l _ | KMaxAfter d l _ | KShift d l _ => dur_guard d l
+  | KDuration l _ | KMax l _ => dur_guard 0 l
   | KCutSeg _ s _ => seg_wf s
-  | KSum ls _ => forallb segs_wf ls && forallb segs_nonneg ls
-  | KModeMagAt _ m _ | KModeActiveAt _ m _ | KModeCut _ m _ | KModeShift _ m _ => mode_wf m
-  | KModeSum ms _ => forallb mode_wf ms && forallb (fun m => segs_nonneg (msegs m)) ms
+  | KSum ls _ => forallb lens_ok_b ls && (0 <=? sumZ (map tail_level ls))
+  | KModeMagAt t m _ | KModeActiveAt t m _ | KModeCut t m _ | KModeMaxAfter t m _ => mode_wf m && mode_dur_guard t m
+  | KModeShift d m _ => mode_wf m && dur_guard d (msegs m)
+  | KModeSum ms _ => forallb mode_wf ms && (0 <=? sumZ (map (fun m => tail_level (msegs m)) ms)) && sum_small ms
+  | KCutCompare a b _ => cut_valid a && cut_valid b
+  | KCutPeriod p _ => period_wf p
+  | KPeriodCtor _ a b _ =>
+      match a with Some t => ts_valid t | None => true end && match b with Some t => ts_valid t | None => true end
+  | KMaxMagnitude l _ | KSumMagnitude l _ => segs_wf l
+  | KMinAt t ms _ => forallb (fun m => mode_wf m && mode_dur_guard t m) ms
+  | KOwnShift _ _ _ _ _ _ | KOwnSum _ _ _ | KOwnModeCut _ _ _ _ | KOwnModeShift _ _ _ _ | KOwnModeSum _ _ _ => true
   end.
 
 Definition agrees (c : c18case) : bool :=
@@ -151,19 +289,47 @@ Definition agrees (c : c18case) : bool :=
   | KCompare a b obs => obs =? compare_ascending a b
   | KIntersect p q obs => Bool.eqb obs (periods_intersect p q)
   | KConnected p q obs => Bool.eqb obs (periods_connected p q)
-  | KActiveAt d l obs => zz_eqb obs (active_at d l)
-  | KMagAt d l obs => zb_eqb obs (magnitude_at d l)
-  | KDuration l obs => zb_eqb obs (duration l)
+  | KActiveAt d l obs => zz_eqb obs (active_at_w d l)
+  | KMagAt d l obs => zb_eqb obs (magnitude_at_w d l)
+  | KDuration l obs => zb_eqb obs (duration_w l)
   | KMax l obs => obs =? max_index l
-  | KMaxAfter d l obs => obs =? max_after d l
+  | KMaxAfter d l obs => obs =? max_after_w d l
   | KCutSeg d s obs => cut3_eqb seg_eqb obs (cut_seg d s)
-  | KShift d l obs => segs_eqb obs (shift d l)
-  | KSum ls obs => segs_eqb obs (sum ls)
-  | KModeMagAt t m obs => zb_eqb obs (mode_magnitude_at t m)
-  | KModeActiveAt t m obs => zz_eqb obs (mode_active_at t m)
-  | KModeCut t m obs => cut3_eqb mode_eqb obs (mode_cut t m)
-  | KModeShift d m obs => mode_eqb obs (mode_shift d m)
-  | KModeSum ms obs => option_eqb mode_eqb obs (mode_sum ms)
+  | KShift d l obs => segs_eqb obs (shift_w d l)
+  | KSum ls obs => segs_eqb obs (sum_w ls)
+  | KModeMagAt t m obs => zb_eqb obs (mode_magnitude_at_w t m)
+  | KModeActiveAt t m obs => zz_eqb obs (mode_active_at_w t m)
+  | KModeCut t m obs => cut3_eqb mode_eqb obs (mode_cut_w t m)
+  | KModeShift d m obs => mode_eqb obs (mode_shift_w d m)
+  | KModeSum ms obs => option_eqb mode_eqb obs (mode_sum_w ms)
+  | KCutCompare a b obs => obs =? cut_compare a b
+  | KCutPeriod p obs => cut_eqb (fst obs) (fst (cut_period p)) && cut_eqb (snd obs) (snd (cut_period p))
+  | KPeriodCtor k a b obs => option_eqb period_eqb obs (period_ctor k a b)
+  | KMaxMagnitude l obs => obs =? max_magnitude l
+  | KSumMagnitude l obs => obs =? sum_magnitude l
+  | KModeMaxAfter t m obs => obs =? mode_max_segment_after_w t m
+  | KMinAt t ms obs => min_at_ok t ms obs
+  | KOwnShift pre post d l mut obs =>
+      let '(h0, s) := arg_heap pre post l in
+      let '(r, h) := shift_own d s h0 in
+      Bool.eqb mut (negb (heap_kept h0 h)) && view_eqb obs (view_slice h0 h r)
+  | KOwnSum args mut obs =>
+      let '(h0, ss) := args_heap args in
+      let '(r, h) := sum_own no_growth ss h0 in
+      Bool.eqb mut (negb (heap_kept h0 h)) && view_eqb obs (view_slice h0 h r)
+  | KOwnModeCut arg t mut obs =>
+      let '(h0, ms) := margs_heap [arg] in
+      let '(b, a, o, h) := mode_cut_own no_growth t 0%nat h0 in
+      Bool.eqb mut (negb (heap_kept h0 h)) &&
+      cut3_eqb mres_eqb obs (option_map (view_mode h0 h) b, option_map (view_mode h0 h) a, o)
+  | KOwnModeShift arg d mut obs =>
+      let '(h0, ms) := margs_heap [arg] in
+      let '(r, h) := mode_shift_own no_growth d 0%nat h0 in
+      Bool.eqb mut (negb (heap_kept h0 h)) && option_eqb mres_eqb obs (Some (view_mode h0 h r))
+  | KOwnModeSum args mut obs =>
+      let '(h0, ms) := margs_heap args in
+      let '(r, h) := mode_sum_own no_growth ms h0 in
+      Bool.eqb mut (negb (heap_kept h0 h)) && option_eqb mres_eqb obs (option_map (view_mode h0 h) r)
   end.
 
 (* Inputs outside the guard are reported under class 1 ("outside the stated guard": invalid
